@@ -15,7 +15,6 @@ package cache
 
 import (
 	"encoding/json"
-	"fmt"
 	"sort"
 	"strconv"
 	"strings"
@@ -25,11 +24,9 @@ import (
 
 	"github.com/alicebob/miniredis/v2"
 	"github.com/alicebob/miniredis/v2/server"
-	"github.com/zeromicro/go-zero/core/collection"
 	"github.com/zeromicro/go-zero/core/logx"
 	"github.com/zeromicro/go-zero/core/stores/redis"
 	"github.com/zeromicro/go-zero/core/timex"
-	"github.com/zeromicro/go-zero/internal/verifhook"
 )
 
 // VerifCacheRow is the row type of the harness database. Ver is unique per write.
@@ -41,99 +38,8 @@ type VerifCacheRow struct {
 
 var (
 	verifCacheClock    atomic.Int64 // virtual relative clock (breaker windows), ns
-	verifCacheOnce     sync.Once
-	verifCacheCur      atomic.Pointer[verifCacheCleaner]
 	verifCachePrefixes atomic.Int64
 )
-
-// verifCacheCleaner is the package's cleaner wheel on a fake ticker.
-type verifCacheCleaner struct {
-	tw     *collection.TimingWheel
-	ticker timex.FakeTicker
-	fire   chan int
-	done   chan struct{}
-	mu     sync.Mutex
-	orig   map[string]func() error
-	onRun  func(keys []string, err error) // under mu, right after a retry task ran
-	before func()                         // on the wheel goroutine, before due tasks are started
-}
-
-func verifCacheInstallCleaner(onRun func(keys []string, err error), before func()) *verifCacheCleaner {
-	verifCacheOnce.Do(func() {
-		// the wheel created by init() runs on the wall clock: retire it
-		timingWheel.Load().(*collection.TimingWheel).Stop()
-		verifhook.Set(func(point string, args ...any) {
-			if point != "wheel.fire" {
-				return
-			}
-			v := verifCacheCur.Load()
-			if v == nil {
-				return
-			}
-			n := args[0].(int)
-			if n > 0 && v.before != nil {
-				v.before()
-			}
-			v.fire <- n
-		})
-	})
-	if old := verifCacheCur.Load(); old != nil {
-		old.tw.Stop()
-	}
-	v := &verifCacheCleaner{
-		ticker: timex.NewFakeTicker(),
-		fire:   make(chan int, 4),
-		done:   make(chan struct{}, 4096),
-		orig:   make(map[string]func() error),
-		onRun:  onRun,
-		before: before,
-	}
-	tw, err := collection.NewTimingWheelWithTicker(time.Second, timingWheelSlots, v.exec, v.ticker)
-	if err != nil {
-		panic(err)
-	}
-	v.tw = tw
-	verifCacheCur.Store(v)
-	timingWheel.Store(tw)
-	return v
-}
-
-// exec is the wheel's execute function: the real clean() with the task wrapped so that the
-// harness sees that (and how) it ran.
-func (v *verifCacheCleaner) exec(key, value any) {
-	dt := value.(delayTask)
-	id := fmt.Sprint(key)
-	v.mu.Lock()
-	orig, ok := v.orig[id]
-	if !ok {
-		orig = dt.task
-		v.orig[id] = orig
-	}
-	v.mu.Unlock()
-	keys := dt.keys
-	dt.task = func() error {
-		v.mu.Lock()
-		defer v.mu.Unlock()
-		err := orig()
-		if v.onRun != nil {
-			v.onRun(keys, err)
-		}
-		return err
-	}
-	clean(key, dt)
-	v.done <- struct{}{}
-}
-
-// tick moves the cleaner wheel by one second and returns when everything it fired has run.
-func (v *verifCacheCleaner) tick() int {
-	v.ticker.Tick()
-	n := <-v.fire
-	for i := 0; i < n; i++ {
-		<-v.done
-	}
-	taskRunner.Wait()
-	return n
-}
 
 // verifCacheInjector is the harness's fault injector: a miniredis pre-hook (the mechanism behind
 // miniredis.SetError, which therefore is not used). While down it answers every data command with an error
@@ -180,7 +86,7 @@ func (j *verifCacheInjector) set(down bool) {
 // VerifCacheWorld is one store + client + cleaner.
 type VerifCacheWorld struct {
 	M       *miniredis.Miniredis
-	R       *redis.Redis  // the client the histories use (node type, or cluster type on the same single-node store)
+	R       *redis.Redis // the client the histories use (node type, or cluster type on the same single-node store)
 	RNode   *redis.Redis
 	RClus   *redis.Redis
 	Cluster bool
@@ -224,9 +130,7 @@ func VerifCacheNewWorld(emit func(map[string]any)) *VerifCacheWorld {
 }
 
 func (w *VerifCacheWorld) Close() {
-	if old := verifCacheCur.Load(); old != nil {
-		old.onRun, old.before = nil, nil
-	}
+	verifCacheDetachCleaner()
 	if !w.Dead {
 		w.inj.set(false)
 		w.M.Close()
@@ -458,18 +362,6 @@ func (w *VerifCacheWorld) Advance(d int) int {
 	}
 	w.flush()
 	return ran
-}
-
-// VerifCacheRetrySchedule reads the cleaner's retry schedule off nextDelay: the seconds from a failed
-// deletion to the last attempt, and the number of attempts.
-func VerifCacheRetrySchedule() (total, attempts int) {
-	d, ok := time.Second, true // AddCleanTask: first retry after one second
-	for ok && attempts < 64 {
-		total += int(d / time.Second)
-		attempts++
-		d, ok = nextDelay(d)
-	}
-	return
 }
 
 // Drain keeps the store up for longer than the cleaner's whole retry schedule and says so.
